@@ -867,10 +867,16 @@ pub fn run(seed: u64, n: usize, out: &mut Out) {
 
         phase(out, "concurrency");
         // ------------------------------------------------------------------ long keys sharing a long prefix (C09, C12)
-        for round in 0..(n / 15).max(1) {
+        for round2 in 0..2 * (n / 15).max(1) {
+            let round = round2 / 2;
             let prefix = crate::cmd::FAMILY_PREFIXES[round % 5];
             let max_len = if round % 5 >= 3 { 60_000 } else { 6_000 };
-            let fam = crate::cmd::prefix_family(&mut rng, &format!("wf{round}_"), prefix, round % 2 == 1, max_len);
+            // odd passes: near-identical SHORT keys (trailing line break / blank / NUL, case, Unicode composition)
+            let fam = if round2 % 2 == 1 {
+                crate::cmd::near_family(&mut rng, &format!("wn{round}_"))
+            } else {
+                crate::cmd::prefix_family(&mut rng, &format!("wf{round}_"), prefix, round % 2 == 1, max_len)
+            };
             let b = rng.range(1, 3);
             let start = rng.below(3) as usize;
             let mut events: Vec<String> = vec![];
